@@ -24,7 +24,7 @@ def py_normal(o):
 
 def run(ctx, factor):
     g, rep = ctx.g, ctx.report
-    rep.rule = ("instruction lines with 0-3 operands in any mix of the AT&T forms ($imm, %reg over all GPRs and widths, "
+    rep.rule = ("instruction lines with 0-5 operands in any mix of the AT&T forms ($imm, %reg over all GPRs and widths, "
                 "k(a,b,c), (a,b,c), k(,b,c), k(a), (a) with scales 1/2/4/8 and displacements of either sign, direct "
                 "targets with <symbol> annotation), printed by the grammar; the decoded implementation stream must carry "
                 "the normal forms of the Lean specification (cross-checked with an independent Python table), in number "
@@ -34,7 +34,7 @@ def run(ctx, factor):
         line, _ = gen_lines.inst_line(g, g.int(0, 0xfffff))
         if line["mnem"] == "(bad)":
             continue
-        nops = g.pick([0, 1, 2, 3])
+        nops = g.pick([0, 1, 2, 3, 3, 4, 5])          # XOP/FMA4 instructions have four and five operands
         line["ops"] = [gen_lines.operand(g) for _ in range(nops)]
         line["gap"] = g.int(1, 5)
         line["annot"] = g.pick([None, "sym+0x4"]) if nops and line["ops"][-1]["k"] == "target" else None
